@@ -36,7 +36,7 @@ type Prog struct {
 	ssaProg *ssa.Program
 	ssaPkgs []*ssa.Package
 
-	cfgs map[*ast.BlockStmt]*FnCFG
+	cfgs    map[*ast.BlockStmt]*FnCFG
 	callers map[*ssa.Function][]ssaCall
 
 	Overlay map[string][]byte
